@@ -1,13 +1,22 @@
 /-
-C19 — model of `hydrodiy.io.hyruns`: `get_batch` (numpy `array_split` arithmetic),
-`SiteBatch.search`, `OptionManager.from_cartesian_product / find / to_dict / from_dict / __eq__`.
+C19 — model of `hydrodiy.io.hyruns`, mirrored branch for branch:
+
+* `get_batch` with its three guards and numpy's `array_split` arithmetic (divmod, section sizes, cumsum, slices),
+* `SiteBatch.__init__ / __getitem__ / search` on the site ids themselves (uniqueness guard, gather, scan),
+* `OptionManager.__init__ / from_cartesian_product / get_task / search,find / to_dict / from_dict / __eq__ / save /
+  from_file`, `OptionTask.to_dict / from_dict / __getitem__`, the module-level key names
+  (`set_dict_keyname`, `reset_dict_keyname`),
+* a state machine (`World`, `Op`, `step`, `run`) over every public mutator / accessor the harness drives, rejected
+  operations included.
+
 No Mathlib. Everything is total and computable; the driver runs these definitions.
 -/
 namespace HydroVerif.C19
 
 /-! ### get_batch -/
 
-inductive Err | nelemLt1 | nelemLtNbatch | ibatchRange
+/-- `numpy` is the ValueError of `array_split` for 0 sections: never reached behind the guards (`getBatch_never_numpy`) -/
+inductive Err | nelemLt1 | nelemLtNbatch | ibatchRange | numpy | indexError
   deriving DecidableEq, Repr
 
 /-- size of batch `i` under `np.array_split(np.arange(n), k)`: the first `n % k` batches get one more -/
@@ -15,31 +24,163 @@ def bsize (n k i : Nat) : Nat := n / k + (if i < n % k then 1 else 0)
 /-- first element of batch `i` -/
 def bstart (n k i : Nat) : Nat := i * (n / k) + min i (n % k)
 
+/-- closed form of batch `i` (what the theorems are stated about; `getBatch` itself runs numpy's arithmetic below) -/
 def batch (n k i : Nat) : List Nat := (List.range (bsize n k i)).map (bstart n k i + ·)
+
+/-! numpy `array_split(ary, Nsections)` for an integer number of sections:
+```
+Neach_section, extras = divmod(Ntotal, Nsections)
+section_sizes = [0] + extras * [Neach_section+1] + (Nsections-extras) * [Neach_section]
+div_points = array(section_sizes).cumsum()
+sub_arys = [ary[div_points[i]:div_points[i + 1]] for i in range(Nsections)]
+``` -/
+
+def sectionSizes (n k : Nat) : List Nat :=
+  List.replicate (n % k) (n / k + 1) ++ List.replicate (k - n % k) (n / k)
+
+/-- running sums of `[acc] ++ l` : `cumsum 0 [a, b] = [0, a, a+b]` -/
+def cumsum (acc : Nat) : List Nat → List Nat
+  | [] => [acc]
+  | a :: t => acc :: cumsum (acc + a) t
+
+def divPoints (n k : Nat) : List Nat := cumsum 0 (sectionSizes n k)
+
+/-- `ary[st:en]` -/
+def slice {α : Type} (l : List α) (st en : Nat) : List α := (l.drop st).take (en - st)
+
+/-- sub-array `i` of `array_split(l, k)`; `none` where numpy raises (0 sections) or python indexing fails (`i ≥ k`) -/
+def arraySplitAt {α : Type} (l : List α) (k i : Nat) : Option (List α) :=
+  if k = 0 then none
+  else if i ≥ k then none
+  else
+    let dp := divPoints l.length k
+    match dp[i]?, dp[i+1]? with
+    | some st, some en => some (slice l st en)
+    | _, _ => none
+
+/-- the whole `array_split(l, k)` -/
+def arraySplit {α : Type} (l : List α) (k : Nat) : List (Option (List α)) :=
+  (List.range k).map (arraySplitAt l k)
 
 /-- `get_batch(nelements, nbatch, ibatch)` with its three guards, in the order the code tests them -/
 def getBatch (n k i : Int) : Except Err (List Nat) :=
   if n < 1 then .error .nelemLt1
   else if n < k then .error .nelemLtNbatch
   else if i < 0 ∨ i ≥ k then .error .ibatchRange
-  else .ok (batch n.toNat k.toNat i.toNat)
+  else match arraySplitAt (List.range n.toNat) k.toNat i.toNat with
+    | some b => .ok b
+    | none => .error .numpy
 
-/-- `SiteBatch.search`: first batch (scanning 0..nbatch-1) containing the site position, `none` otherwise.
-Site ids are unique, so a site is identified with its position `s` in the id list. -/
+/-- `SiteBatch.search` by position: first batch (scanning 0..nbatch-1) containing the site position, `none` otherwise.
+The specification the id-based `SiteBatch.search` below is proved to refine. -/
 def search (n k s : Nat) : Option Nat :=
   (List.range k).find? fun i => (batch n k i).contains s
 
-/-! ### option manager -/
+/-! ### SiteBatch on the site ids -/
 
-/-- option values: integers and identifier-like strings are all the property quantifies over;
-both are compared through their string form by `find`. -/
-abbrev Val := String
+def allSome {α} : List (Option α) → Option (List α)
+  | [] => some []
+  | none :: _ => none
+  | some a :: t => (allSome t).map (a :: ·)
+
+structure SiteBatch (α : Type) where
+  ids : List α
+  nbatch : Int
+  deriving Repr, DecidableEq
+
+/-- `len(np.unique(l))` -/
+def nunique {α : Type} [DecidableEq α] : List α → Nat
+  | [] => 0
+  | a :: t => if a ∈ t then nunique t else nunique t + 1
+
+/-- `SiteBatch(siteids, nbatch)`: `assert len(np.unique(siteids)) == nsites`; `nbatch` is not validated here -/
+def SiteBatch.mk? {α : Type} [DecidableEq α] (ids : List α) (k : Int) : Option (SiteBatch α) :=
+  if nunique ids = ids.length then some ⟨ids, k⟩ else none
+
+/-- `siteids[isites]` (numpy fancy indexing; an index out of range raises) -/
+def gather {α : Type} (ids : List α) (idx : List Nat) : Option (List α) :=
+  allSome (idx.map (ids[·]?))
+
+/-- `sb[ibatch]` -/
+def SiteBatch.getItem {α : Type} (sb : SiteBatch α) (i : Int) : Except Err (List α) :=
+  match getBatch (sb.ids.length : Int) sb.nbatch i with
+  | .error e => .error e
+  | .ok idx => match gather sb.ids idx with
+    | some l => .ok l
+    | none => .error .indexError
+
+/-- the scan of `search`: `for ibatch in range(nbatch): s = self[ibatch]; if siteid in s: return ibatch` -/
+def SiteBatch.searchLoop {α : Type} [BEq α] (sb : SiteBatch α) (id : α) : List Nat → Except Err (Option Nat)
+  | [] => .ok none
+  | i :: rest =>
+    match sb.getItem (i : Int) with
+    | .error e => .error e
+    | .ok s => if s.contains id then .ok (some i) else searchLoop sb id rest
+
+def SiteBatch.search {α : Type} [BEq α] (sb : SiteBatch α) (id : α) : Except Err (Option Nat) :=
+  sb.searchLoop id (List.range sb.nbatch.toNat)
+
+/-! ### option values -/
+
+/-- option / context values. `int` and `str` (identifier-like) are what the property quantifies over; `flt` is a float
+given bare, carried as its python `repr`; `other` is an opaque context value (`None`, `False`, `[]`, ...). -/
+inductive Val
+  | int (i : Int)
+  | str (s : String)
+  | flt (repr : String)
+  | other (repr : String)
+  deriving DecidableEq, Repr
+
+/-- python `str(v)` -/
+def Val.toStr : Val → String
+  | .int i => toString i
+  | .str s => s
+  | .flt r => r
+  | .other r => r
 
 abbrev Dict := List (String × Val)
 
 /-- python dict equality on association lists with unique keys: same keys, same values, any order -/
 def dictSub (a b : Dict) : Bool := a.all fun kv => b.lookup kv.1 == some kv.2
 def dictEq (a b : Dict) : Bool := a.length == b.length && dictSub a b
+
+/-- python `d[k] = v`: an existing key keeps its place and takes the new value, a new key goes last -/
+def dictSet {β : Type} (d : List (String × β)) (k : String) (v : β) : List (String × β) :=
+  if d.any (·.1 == k) then d.map (fun e => if e.1 == k then (e.1, v) else e) else d ++ [(k, v)]
+
+/-- python `{k1: v1, k2: v2, ...}` / `**kwargs` collected into a dict: keys come out unique -/
+def dictOf {β : Type} (kvs : List (String × β)) : List (String × β) :=
+  kvs.foldl (fun acc kv => dictSet acc kv.1 kv.2) []
+
+/-! ### `search` / `find`: the comparison of two values -/
+
+/-- `re.sub("\\[|\\]", "", s)` -/
+def reStrip (s : String) : String :=
+  String.ofList (s.toList.filter fun c => !(c == '[' || c == ']'))
+
+/-- `re.search("^" + p + "$", s)` for patterns over letters, digits, `_`, `-` and `.`: every character stands for
+itself except `.`, which matches any one character -/
+def matchLit : List Char → List Char → Bool
+  | [], [] => true
+  | p :: ps, c :: cs => (p == '.' || p == c) && matchLit ps cs
+  | _, _ => false
+
+/-- `find(key=v)` against a task value `tv`: both go through `str` and lose their brackets -/
+def valMatch (v tv : Val) : Bool :=
+  matchLit (reStrip v.toStr).toList (reStrip tv.toStr).toList
+
+/-- a value whose string form has no `.`, `[`, `]`: integers and identifier-like strings -/
+def Val.plain (v : Val) : Bool :=
+  v.toStr.toList.all fun c => !(c == '.' || c == '[' || c == ']')
+
+/-- the option values the property quantifies over: integers, and identifier-like strings (at least one letter, no
+`.`/`[`/`]`; such a string never reads as an integer) -/
+def Val.quant : Val → Bool
+  | .int _ => true
+  | .str s => s.toList.any Char.isAlpha && (Val.str s).plain
+  | _ => false
+
+/-! ### option manager -/
 
 /-- `itertools.product` order: last list varies fastest -/
 def product : List (List Val) → List (List Val)
@@ -53,32 +194,98 @@ structure Manager where
   tasks : List Dict
   deriving Repr, DecidableEq
 
-def fromCartesian (name : String) (context : Dict) (opts : List (String × List Val)) : Manager :=
-  { name, context, options := opts,
-    tasks := (product (opts.map (·.2))).map fun t => (opts.map (·.1)).zip t }
+/-- `OptionManager(name, **kwargs)` -/
+def Manager.new (name : String) (ctx : Dict) : Manager :=
+  { name, context := dictOf ctx, options := [], tasks := [] }
 
-/-- an option as the caller gives it: a bare scalar (string, int, float) stands for the one-value list
-(`from_cartesian_product` wraps `str`/`int`/`float` and iterates over anything else) -/
+/-- the task list of an option dictionary: `{k: tt for k, tt in zip(keys, t)}` for `t` in the product -/
+def tasksOf (opts : List (String × List Val)) : List Dict :=
+  (product (opts.map (·.2))).map fun t => (opts.map (·.1)).zip t
+
+def fromCartesian (name : String) (context : Dict) (opts : List (String × List Val)) : Manager :=
+  { name, context, options := opts, tasks := tasksOf opts }
+
+/-- an option as the caller gives it: a bare scalar (string, int, float) stands for the one-value list, any iterable is
+listed (`list(v)`), anything else is a `TypeError` -/
 inductive OptArg
   | bare (v : Val)
   | many (vs : List Val)
-  deriving Repr
+  | notIterable
+  deriving Repr, DecidableEq
 
-def OptArg.toList : OptArg → List Val
-  | .bare v => [v]
-  | .many vs => vs
+def OptArg.toList? : OptArg → Option (List Val)
+  | .bare v => some [v]
+  | .many vs => some vs
+  | .notIterable => none
 
-def fromCartesianArgs (name : String) (context : Dict) (opts : List (String × OptArg)) : Manager :=
-  fromCartesian name context (opts.map fun kv => (kv.1, kv.2.toList))
+/-- the loop over `kwargs.items()`: `self.options[str(k)] = v2`, stopping at the first value that is neither a scalar
+nor iterable. Returns the options filled so far and whether the loop completed. -/
+def fillOptions : List (String × OptArg) → List (String × List Val) → List (String × List Val) × Bool
+  | [], acc => (acc, true)
+  | (k, a) :: rest, acc =>
+    match a.toList? with
+    | some vs => fillOptions rest (dictSet acc k vs)
+    | none => (acc, false)
 
-/-- `find(key=val)`: indices of the tasks whose option `key` has exactly that value
-(anchored literal pattern = string equality for identifier-like / integer values) -/
-def find (m : Manager) (key : String) (val : Val) : Option (List Nat) :=
-  if (m.options.lookup key).isNone then none
-  else some <| (List.range m.tasks.length).filter fun i =>
-    match m.tasks[i]? with
-    | some t => t.lookup key == some val
-    | none => false
+/-- `opm.from_cartesian_product(**kwargs)`. `self.options = {}` comes first and the tasks are rebuilt last: when the
+loop raises, the options are partly rebuilt and the OLD tasks stay. -/
+def Manager.cartesian (m : Manager) (args : List (String × OptArg)) : Manager × Bool :=
+  match fillOptions args [] with
+  | (opts, true) => ({ m with options := opts, tasks := tasksOf opts }, true)
+  | (opts, false) => ({ m with options := opts }, false)
+
+def fromCartesianArgs (name : String) (context : Dict) (args : List (String × OptArg)) : Manager :=
+  ((Manager.new name context).cartesian args).1
+
+structure Task where
+  taskid : Nat
+  context : Dict
+  options : Dict
+  deriving Repr, DecidableEq
+
+/-- `get_task(taskid)`: `assert taskid >= 0 and taskid < ntasks` -/
+def getTask (m : Manager) (id : Int) : Option Task :=
+  if 0 ≤ id ∧ id < m.tasks.length then
+    match m.tasks[id.toNat]? with
+    | some o => some ⟨id.toNat, m.context, o⟩
+    | none => none
+  else none
+
+/-- `task[key]`: options first, then context; the assertion fails for a key in neither -/
+def Task.get (t : Task) (key : String) : Option Val :=
+  match t.options.lookup key with
+  | some v => some v
+  | none => t.context.lookup key
+
+inductive FErr | unknownKey | keyError
+  deriving DecidableEq, Repr
+
+/-- one task against all criteria (`match` list, then `all(match)`): `assert key in self.options`, then `task[key]` -/
+def critMatch (options : List (String × List Val)) (t : Dict) : List (String × Val) → Except FErr Bool
+  | [] => .ok true
+  | (k, v) :: rest =>
+    if (options.lookup k).isNone then .error .unknownKey
+    else match t.lookup k with
+      | none => .error .keyError
+      | some tv =>
+        match critMatch options t rest with
+        | .error e => .error e
+        | .ok b => .ok (valMatch v tv && b)
+
+/-- `for taskid, task in enumerate(self.tasks)`: the first failure wins; no task, no assertion -/
+def findLoop (options : List (String × List Val)) (crit : List (String × Val)) : List Dict → Nat → Except FErr (List Nat)
+  | [], _ => .ok []
+  | t :: ts, id =>
+    match critMatch options t crit with
+    | .error e => .error e
+    | .ok b =>
+      match findLoop options crit ts (id + 1) with
+      | .error e => .error e
+      | .ok r => .ok (if b then id :: r else r)
+
+/-- `find(**crit)` = `search(**{k: f"^{v}$"})` -/
+def find (m : Manager) (crit : List (String × Val)) : Except FErr (List Nat) :=
+  findLoop m.options crit m.tasks 0
 
 /-! ### dictionary export / import with configurable key names -/
 
@@ -86,43 +293,71 @@ structure KeyNames where
   context : String
   taskOptions : String
   managerOptions : String
-  deriving Repr
+  deriving Repr, DecidableEq
+
+/-- `_DICT_KEYNAMES_DEFAULT` -/
+def KeyNames.default : KeyNames := ⟨"context", "options", "options"⟩
+
+/-- `set_dict_keyname(key, name)`: `assert key in _DICT_KEYNAMES_DEFAULT` -/
+def KeyNames.set (kn : KeyNames) (key name : String) : Option KeyNames :=
+  if key = "context_name" then some { kn with context := name }
+  else if key = "task_options_name" then some { kn with taskOptions := name }
+  else if key = "manager_options_name" then some { kn with managerOptions := name }
+  else none
+
+/-- what the exact round trip needs of the key names: the two top-level names differ from each other and from the fixed
+top-level keys `name` and `tasks`. (The task-level names may collide with anything: `from_dict` only keeps the
+options of a task, and that entry is written last.) -/
+def KeyNames.ok (kn : KeyNames) : Prop :=
+  kn.context ≠ kn.managerOptions ∧ kn.context ≠ "tasks" ∧ kn.managerOptions ≠ "tasks" ∧
+  kn.context ≠ "name" ∧ kn.managerOptions ≠ "name"
+
+/-- what equality through `==` needs (the name of a manager is not compared) -/
+def KeyNames.okEq (kn : KeyNames) : Prop :=
+  kn.context ≠ kn.managerOptions ∧ kn.context ≠ "tasks" ∧ kn.managerOptions ≠ "tasks"
+
+instance (kn : KeyNames) : Decidable kn.okEq := by unfold KeyNames.okEq; infer_instance
+
+instance (kn : KeyNames) : Decidable kn.ok := by unfold KeyNames.ok; infer_instance
 
 inductive J
   | str (s : String) | num (n : Nat) | dict (d : Dict) | odict (d : List (String × List Val))
   | tasks (ts : List (List (String × J)))
   deriving Repr
 
-def taskToDict (kn : KeyNames) (id : Nat) (ctx : Dict) (opts : Dict) : List (String × J) :=
+abbrev Doc := List (String × J)
+
+def taskToDict (kn : KeyNames) (id : Nat) (ctx : Dict) (opts : Dict) : Doc :=
   [("taskid", .num id), (kn.context, .dict ctx), (kn.taskOptions, .dict opts)]
 
-/-- python `{k1: v1, k2: v2, ...}` literal: a later duplicate key overwrites the value of the earlier one -/
-def pyDict (kvs : List (String × J)) : List (String × J) :=
-  kvs.foldl (fun acc kv =>
-    if acc.any (·.1 == kv.1) then acc.map (fun e => if e.1 == kv.1 then (e.1, kv.2) else e)
-    else acc ++ [kv]) []
+/-- a dict literal: a later duplicate key overwrites the value of the earlier one -/
+def pyDict (kvs : Doc) : Doc := dictOf kvs
 
-def toDict (kn : KeyNames) (m : Manager) : List (String × J) :=
+/-- `OptionTask.to_dict` -/
+def Task.toDict (kn : KeyNames) (t : Task) : Doc := pyDict (taskToDict kn t.taskid t.context t.options)
+
+/-- `OptionManager.to_dict`: the tasks are exported as `get_task(taskid).to_dict()` for `taskid` in `range(ntasks)` -/
+def toDict (kn : KeyNames) (m : Manager) : Doc :=
   pyDict [("name", .str m.name), (kn.context, .dict m.context), (kn.managerOptions, .odict m.options),
-    ("tasks", .tasks ((List.range m.tasks.length).map fun i =>
-        pyDict (taskToDict kn i m.context (m.tasks[i]?.getD []))))]
+    ("tasks", .tasks (m.tasks.mapIdx fun i o => pyDict (taskToDict kn i m.context o)))]
 
-def jlookup (d : List (String × J)) (k : String) : Option J := d.lookup k
+def jlookup (d : Doc) (k : String) : Option J := d.lookup k
 
-def taskFromDict (kn : KeyNames) (d : List (String × J)) : Option Dict :=
+/-- `OptionTask.from_dict(t).options`: the three keys must be there -/
+def taskFromDict (kn : KeyNames) (d : Doc) : Option Dict :=
   match jlookup d "taskid", jlookup d kn.context, jlookup d kn.taskOptions with
   | some _, some _, some (.dict o) => some o
   | _, _, _ => none
 
-def allSome {α} : List (Option α) → Option (List α)
-  | [] => some []
-  | none :: _ => none
-  | some a :: t => (allSome t).map (a :: ·)
-
-def fromDict (kn : KeyNames) (d : List (String × J)) : Option Manager :=
+/-- `OptionManager.from_dict`. The code does not look at what kind of value sits under a key; the model answers `none`
+where a field would come out of the wrong kind (a list or a dictionary of lists as context, ...), and the harness
+counts such a manager as a failed import. An empty dictionary is of both kinds. -/
+def fromDict (kn : KeyNames) (d : Doc) : Option Manager :=
   let name := match jlookup d "name" with | some (.str s) => s | _ => "Task Manager"
-  let ctx := match jlookup d kn.context with | some (.dict c) => some c | none => some [] | _ => none
-  let opts := match jlookup d kn.managerOptions with | some (.odict o) => some o | none => some [] | _ => none
+  let ctx := match jlookup d kn.context with
+    | some (.dict c) => some c | some (.odict []) => some [] | none => some [] | _ => none
+  let opts := match jlookup d kn.managerOptions with
+    | some (.odict o) => some o | some (.dict []) => some [] | none => some [] | _ => none
   let tasks := match jlookup d "tasks" with
     | some (.tasks ts) => allSome (ts.map (taskFromDict kn))
     | none => some []
@@ -138,5 +373,77 @@ def mEq (a b : Manager) : Bool :=
   && (a.options.all fun kv => b.options.lookup kv.1 == some kv.2)
   && (a.tasks.length == b.tasks.length)
   && ((a.tasks.zip b.tasks).all fun p => dictEq p.1 p.2)
+
+/-! ### histories: one manager object, the module-level key names, one exported dictionary, files -/
+
+structure World where
+  mgr : Manager
+  kn : KeyNames
+  /-- the dictionary last exported with `to_dict` (the caller's variable) -/
+  reg : Option Doc
+  /-- json files written by `save` -/
+  files : List (String × Doc)
+  deriving Repr
+
+def World.init (name : String) (ctx : Dict) : World :=
+  { mgr := Manager.new name ctx, kn := KeyNames.default, reg := none, files := [] }
+
+inductive Op
+  | setKey (key name : String)                 -- `set_dict_keyname(key, name)`
+  | resetKeys                                  -- `reset_dict_keyname()`
+  | cartesian (args : List (String × OptArg))  -- `opm.from_cartesian_product(**args)`
+  | find (crit : List (String × Val))          -- `opm.find(**crit)`
+  | getTask (id : Int)                         -- `opm.get_task(id)`
+  | exp                                        -- `dd = opm.to_dict()`
+  | jsn                                        -- `dd = json.loads(json.dumps(dd))`
+  | imp                                        -- `OptionManager.from_dict(dd)`
+  | save (path : String) (overwrite : Bool)    -- `opm.save(path, overwrite)`
+  | load (path : String)                       -- `OptionManager.from_file(path)`
+  deriving Repr
+
+inductive Out
+  | ok
+  | err
+  | ids (l : List Nat)
+  | task (t : Task)
+  | mgr (m : Manager)
+  deriving Repr, DecidableEq
+
+def readDoc (kn : KeyNames) : Option Doc → Out
+  | none => .err
+  | some d => match fromDict kn d with
+    | some m => .mgr m
+    | none => .err
+
+/-- one public call. Accessors and rejected calls leave the world as it is, except a rejected
+`from_cartesian_product`, which leaves the options partly rebuilt (see `Manager.cartesian`). -/
+def step (w : World) : Op → World × Out
+  | .setKey key name =>
+    match w.kn.set key name with
+    | some kn => ({ w with kn := kn }, .ok)
+    | none => (w, .err)
+  | .resetKeys => ({ w with kn := KeyNames.default }, .ok)
+  | .cartesian args =>
+    match w.mgr.cartesian args with
+    | (m, true) => ({ w with mgr := m }, .ok)
+    | (m, false) => ({ w with mgr := m }, .err)
+  | .find crit =>
+    (w, match find w.mgr crit with | .ok l => .ids l | .error _ => .err)
+  | .getTask id =>
+    (w, match getTask w.mgr id with | some t => .task t | none => .err)
+  | .exp => ({ w with reg := some (toDict w.kn w.mgr) }, .ok)
+  | .jsn => (w, .ok)
+  | .imp => (w, readDoc w.kn w.reg)
+  | .save path overwrite =>
+    if (w.files.lookup path).isSome && !overwrite then (w, .ok)
+    else ({ w with files := dictSet w.files path (toDict w.kn w.mgr) }, .ok)
+  | .load path => (w, readDoc w.kn (w.files.lookup path))
+
+def run (w : World) : List Op → World × List Out
+  | [] => (w, [])
+  | op :: rest =>
+    let (w1, o) := step w op
+    let (w2, os) := run w1 rest
+    (w2, o :: os)
 
 end HydroVerif.C19
